@@ -220,28 +220,31 @@ fn simpler_step(s: &Step) -> Vec<Step> {
         Poll(j) => out.extend(simpler_usize(*j).into_iter().map(Poll)),
         PollWoken(j) => out.extend(simpler_usize(*j).into_iter().map(PollWoken)),
         DropConsumer(j) => out.extend(simpler_usize(*j).into_iter().map(DropConsumer)),
-        PollPreempted { j, at, ops, drop_vector } => {
+        PollPreempted { j, at, ops, drop_vector, as_tx } => {
             out.push(Poll(*j));
+            if *as_tx {
+                out.push(PollPreempted { j: *j, at: *at, ops: ops.clone(), drop_vector: *drop_vector, as_tx: false });
+            }
             if *drop_vector {
-                out.push(PollPreempted { j: *j, at: *at, ops: ops.clone(), drop_vector: false });
+                out.push(PollPreempted { j: *j, at: *at, ops: ops.clone(), drop_vector: false, as_tx: *as_tx });
             }
             for k in 0..ops.len() {
                 let mut o = ops.clone();
                 o.remove(k);
-                out.push(PollPreempted { j: *j, at: *at, ops: o, drop_vector: *drop_vector });
+                out.push(PollPreempted { j: *j, at: *at, ops: o, drop_vector: *drop_vector, as_tx: *as_tx });
             }
             for k in 0..ops.len() {
                 for x in simpler_step(&ops[k]) {
                     let mut o = ops.clone();
                     o[k] = x;
-                    out.push(PollPreempted { j: *j, at: *at, ops: o, drop_vector: *drop_vector });
+                    out.push(PollPreempted { j: *j, at: *at, ops: o, drop_vector: *drop_vector, as_tx: *as_tx });
                 }
             }
             for a in simpler_usize(*at as usize) {
-                out.push(PollPreempted { j: *j, at: a as u8, ops: ops.clone(), drop_vector: *drop_vector });
+                out.push(PollPreempted { j: *j, at: a as u8, ops: ops.clone(), drop_vector: *drop_vector, as_tx: *as_tx });
             }
             for i in simpler_usize(*j) {
-                out.push(PollPreempted { j: i, at: *at, ops: ops.clone(), drop_vector: *drop_vector });
+                out.push(PollPreempted { j: i, at: *at, ops: ops.clone(), drop_vector: *drop_vector, as_tx: *as_tx });
             }
         }
         _ => {}
